@@ -651,6 +651,25 @@ def tracker_clear(cx):
         if fk == "Configuration.auto_leave" and "stmt" in s.data:
             v = a.expr_rvalue(s.data["stmt"]["rv"], s.at)
             cx.check(v == ("bool", False), "Configuration::clear:auto_leave", "auto_leave is reset to false", s)
+    # ... and one level down: the voters are a joint configuration of two halves, both are emptied
+    jc = cx.prog.one("quorum::joint::Configuration::clear")
+    jad = cx.facts.adt("raft::quorum::joint::Configuration")
+    if jc is not None and jad:
+        jfields = [f["name"] for f in jad["variants"][0]["fields"]]
+        jt = set()
+        for s_, fk, pl in cx.prog.direct_writes(jc.key):
+            if fk == "Configuration.*":
+                jt |= set(jfields)
+            elif fk.startswith("Configuration."):
+                jt.add(fk.split(".")[1])
+        for sp, s_ in cx.prog.calls_out[jc.key]:
+            if s_.kind == "call" and sp.rsplit("::", 1)[-1] in ("clear", "drain", "take"):
+                a0 = call_args(cx, s_)[0]
+                for f_ in jfields:
+                    if contains(fld("Configuration." + f_), a0):
+                        jt.add(f_)
+        jm = [f_ for f_ in jfields if f_ not in jt]
+        cx.check(not jm, "JointConfig::clear", "the joint voter configuration's clear empties both halves (not emptied: %s)" % jm)
     pc = cx.fn("ProgressTracker::clear")
     cleared = set()
     for sp, s in cx.prog.calls_out[pc.key]:
